@@ -79,8 +79,19 @@
 //! *broadcasts* of two concurrent callers (e.g. `Complete{g}` overtaken by a late `InProgress{g}`,
 //! which would leave `wait_complete()` hanging) is outside this check.
 //!
-//! **Sensitivity probes** (mkpatch + mutrun, `./check C31 quick`):
-//! PROBES-PLACEHOLDER
+//! **Sensitivity probes** (patches in `crates/vf-dynf/probes/`, made with mkpatch, run with
+//! `tools/mutrun <patch> -- ./check C31 quick`, seed 0):
+//! * p1 `unguarded-cache-write` (DESIGN probe: `Some(_) => true` instead of `generation > *cached_gen`) —
+//!   VIOLATION after 150 cases, clause 8: "[generation-cache] … returned a different Arc … the cache
+//!   entry was lost / regressed"; shrunk to 2 readers x [Current, Current], 1 update, 1 preemption.
+//!   (Clauses 1–7 cannot see this change: it is behaviour-preserving, see Deviations.)
+//! * p2 `generation-read-after-expr` (DESIGN probe: `expr` and `generation` read under two separate
+//!   `inner.read()` acquisitions in `current()`) — VIOLATION after 28 cases, clause 2: STALE read (the
+//!   cache was filled with (new generation, old expression) and later reads hit it).
+//! * p4 `update-two-steps` (`update()` bumps the generation in one write-lock scope and stores the
+//!   expression in a second one) — VIOLATION after 13 cases, clause 5 (`snapshot_generation()` ahead of
+//!   the published updates); other seeds/cases hit clause 2 through the poisoned cache.
+//! PROBES-MORE
 
 use arrow::array::{Array, ArrayRef, Int64Array, RecordBatch};
 use arrow::datatypes::{DataType, Field, Schema};
@@ -874,7 +885,7 @@ impl Property for C31b {
             .boxed()
     }
     fn budget(&self, tier: Tier) -> Budget {
-        Budget::new(tier.pick(10_000, 2_000_000), tier.pick(8, 16)).min_nontrivial(tier.pick(800, 100_000)).case_timeout(60)
+        Budget::new(tier.pick(16_000, 2_000_000), tier.pick(8, 16)).min_nontrivial(tier.pick(800, 100_000)).case_timeout(60)
     }
     fn rule(&self) -> String {
         "one base DynamicFilterPhysicalExpr + 1-2 with_new_children instances; 1-2 updater actors x 1-3 (thorough 1-4) update() calls publishing lit(v) or c0+lit(v) with unique v, \
